@@ -878,6 +878,55 @@ fn f_c07_accept() {
 }
 h!(c07_accept, 8, f_c07_accept());
 
+/// Connect with the application's accept queue FULL (stream_buffer_size = 2): the step may wait
+/// for room, but a stream that was acknowledged must reach the accepting application once it
+/// accepts - "each successful stream request yields exactly one stream on each endpoint" (seed
+/// C04b: the acknowledged stream was dropped when the queue was full).
+fn f_c07_accept_queue_full() {
+    let mut ep = endpoint(small_options(), KRng::fixed([1, 2, 3, 4]));
+    let host = leak2(kani::any());
+    let port: u16 = kani::any();
+    let r = now_or_never(ep.task.con_recv_new_stream(ID_A, Bytes::from_static(&host[..]), port, 2));
+    vassert!(matches!(r, Some(Ok(()))), "P:C10 Connect made the connection task fail or block");
+    core::mem::forget(r);
+    let r = now_or_never(ep.task.con_recv_new_stream(ID_B, Bytes::from_static(&host[..]), port, 2));
+    vassert!(matches!(r, Some(Ok(()))), "P:C10 Connect made the connection task fail or block");
+    core::mem::forget(r);
+    let _ = pop_out(&mut ep.tx_msg_rx);
+    let _ = pop_out(&mut ep.tx_msg_rx);
+    let mut fut = core::mem::ManuallyDrop::new(ep.task.con_recv_new_stream(ID_C, Bytes::from_static(&host[..]), port, 2));
+    let p1 = poll_once(unsafe { Pin::new_unchecked(&mut *fut) });
+    let first = pop_out(&mut ep.tx_msg_rx);
+    let acked = first == Out::Frame { op: OpCode::Acknowledge, id: ID_C };
+    let refused_at_once = first == Out::Frame { op: OpCode::Reset, id: ID_C };
+    // the application accepts the two queued streams
+    let s1 = now_or_never(ep.mux.accept_stream_channel());
+    let s2 = now_or_never(ep.mux.accept_stream_channel());
+    vassert!(matches!(&s1, Some(Ok(s)) if s.flow_id == ID_A) && matches!(&s2, Some(Ok(s)) if s.flow_id == ID_B), "P:C07 queued streams lost or reordered");
+    if let Poll::Ready(r) = &p1 {
+        vassert!(r.is_ok(), "P:C10 Connect with a full accept queue ended the connection");
+    } else {
+        let p2 = poll_once(unsafe { Pin::new_unchecked(&mut *fut) });
+        vassert!(matches!(p2, Poll::Ready(Ok(()))), "P:C04 Connect still pending although the application made room");
+        core::mem::forget(p2);
+    }
+    let s3 = now_or_never(ep.mux.accept_stream_channel());
+    let got = matches!(&s3, Some(Ok(s)) if s.flow_id == ID_C && s.dest_port == port);
+    // an abandoned stream shows as a drop notification (-> Reset to the peer)
+    let dropped = matches!(ep.dropped_flows_rx.try_recv(), Ok(id) if id == ID_C);
+    vassert!(!(acked && !got), "P:C07 a stream request was acknowledged but the stream never reaches the accepting application");
+    vassert!(!dropped || refused_at_once, "P:C07 a stream the peer was told is open was dropped by the endpoint itself");
+    vassert!(got || refused_at_once, "P:C07 a Connect was neither answered nor handed to the application");
+    kani::cover!(got, "?third stream accepted after the application made room");
+    kani::cover!(true, "accept with a full queue evaluated");
+    core::mem::forget(s1);
+    core::mem::forget(s2);
+    core::mem::forget(s3);
+    core::mem::forget(p1);
+    forget_ep(ep);
+}
+h!(c07_accept_queue_full, 8, f_c07_accept_queue_full());
+
 // =======================================================================================
 // C11: datagram service
 // =======================================================================================
@@ -1180,6 +1229,54 @@ fn f_c15_responder(decision: u8) {
 h!(c15_responder_accept, 8, f_c15_responder(0));
 h!(c15_responder_reject, 8, f_c15_responder(1));
 h!(c15_responder_drop, 8, f_c15_responder(2));
+
+/// Responder with the application's bind queue FULL: the request may wait for room (the step is
+/// pending and keeps it) or be refused with a Reset, but it must not vanish - "every bind request
+/// resolves exactly once" (seed C15c: the request was discarded without any answer).
+fn f_c15_responder_queue_full() {
+    let mut ep = endpoint(bind_opts(), KRng::fixed([1, 2, 3, 4]));
+    let host = leak1(kani::any());
+    let port: u16 = kani::any();
+    // two requests fill the queue (bind_buffer_size = 2)
+    let r = now_or_never(ep.task.process_frame(Frame::new_bind(ID_A, BindType::Stream, &host[..], port), false));
+    vassert!(matches!(r, Some(Ok(()))), "P:C10 Bind made process_frame fail or block");
+    core::mem::forget(r);
+    let r = now_or_never(ep.task.process_frame(Frame::new_bind(ID_B, BindType::Stream, &host[..], port), false));
+    vassert!(matches!(r, Some(Ok(()))), "P:C10 Bind made process_frame fail or block");
+    core::mem::forget(r);
+    vassert!(pop_out(&mut ep.tx_msg_rx) == Out::Nothing, "P:C15 the connection task answered a Bind itself although binds are enabled");
+    // the third one finds the queue full
+    let mut fut = core::mem::ManuallyDrop::new(ep.task.process_frame(Frame::new_bind(ID_C, BindType::Stream, &host[..], port), false));
+    let p1 = poll_once(unsafe { Pin::new_unchecked(&mut *fut) });
+    let answered_1 = pop_out(&mut ep.tx_msg_rx);
+    // the application takes the first two
+    let q1 = now_or_never(ep.mux.next_bind_request());
+    let q2 = now_or_never(ep.mux.next_bind_request());
+    vassert!(matches!(&q1, Some(Ok(q)) if q.flow_id() == ID_A) && matches!(&q2, Some(Ok(q)) if q.flow_id() == ID_B), "P:C15 queued bind requests lost or reordered");
+    let mut done = matches!(p1, Poll::Ready(_));
+    if let Poll::Ready(r) = &p1 {
+        vassert!(r.is_ok(), "P:C10 Bind with a full queue ended the connection");
+    } else {
+        // there is room now: the pending step must finish
+        let p2 = poll_once(unsafe { Pin::new_unchecked(&mut *fut) });
+        vassert!(matches!(p2, Poll::Ready(Ok(()))), "P:C15 Bind still pending although the application made room");
+        done = true;
+        core::mem::forget(p2);
+    }
+    let q3 = now_or_never(ep.mux.next_bind_request());
+    let shown = matches!(&q3, Some(Ok(q)) if q.flow_id() == ID_C && q.port() == port);
+    let refused = answered_1 == Out::Frame { op: OpCode::Reset, id: ID_C } || pop_out(&mut ep.tx_msg_rx) == Out::Frame { op: OpCode::Reset, id: ID_C };
+    vassert!(done && (shown || refused), "P:C15 a bind request that found the application's queue full was neither shown to the application nor refused: it will never resolve");
+    vassert!(!(shown && refused), "P:C15 a bind request was both refused and shown to the application");
+    kani::cover!(shown, "?request shown after the application made room");
+    kani::cover!(true, "responder with a full queue evaluated");
+    core::mem::forget(q1);
+    core::mem::forget(q2);
+    core::mem::forget(q3);
+    core::mem::forget(p1);
+    forget_ep(ep);
+}
+h!(c15_responder_queue_full, 8, f_c15_responder_queue_full());
 
 // =======================================================================================
 // C16: keepalive under a virtual clock (tokio::time model).  The real `schedule_ping_task`
